@@ -101,6 +101,34 @@ def check(run):
         want = dump(project(fv, parse_dump(u.split(" ")[3])))
         if p.split(" ")[3] != want:
             oracle_fail.append((cfg, l, "projection " + want[:200], p[:200]))
+    # the same (filter, input) pairs through every way of giving the input AND the filter (doc_h JK: 13 input kinds, the
+    # filter once more as a JsonDocument built through the API on an allocator that moves its blocks when it shrinks):
+    # every kind must give the projection
+    kl, kmeta = [], []
+    for f, t, fm, u in list(zip(fl, texts, fmo, uio))[: (1500 if thorough else 250)]:
+        if "<crash>" in u or u.split(" ")[0] != "Ok" or len(t) > 300:
+            continue
+        fv = parse_dump(fm.split(" ")[3])
+        if ambiguous(fv):
+            continue
+        kl.append("JK 10 %s %s" % (hx(f), hx(t)))
+        kmeta.append("Ok:" + dump(project(fv, parse_dump(u.split(" ")[3]))))
+    ko, kcrash = vlib.run_sharded(impl_d, kl, None, 900, ["CFG " + cfg])
+    if kcrash:
+        k = ko.index("<crash>") if "<crash>" in ko else 0
+        run.violation("C11: library crashed while filtering (some input or filter kind): " + kcrash[:200], dict(kind="input", cfg=cfg, harness_src="doc_h", lines=[kl[k]], observed=kcrash[-2500:]))
+    for l, want, o in zip(kl, kmeta, ko):
+        run.count((cfg, "kinds", l))
+        if o == "<crash>":
+            continue
+        for ent in o.strip().split(" "):
+            kname, _, val = ent.partition("=")
+            if val and val != want and not val.endswith("!MEASURE") and kname not in ("cstr", "mutcstr", "flash", "variant") :
+                oracle_fail.append((cfg, l, f"projection {want[:200]} whichever way the input and the filter are given", f"{kname}: {val[:200]}"))
+                break
+            if val and val != want and kname in ("cstr", "mutcstr", "flash", "variant") and b"\x00" not in bytes.fromhex(l.split(" ")[3]):
+                oracle_fail.append((cfg, l, f"projection {want[:200]} whichever way the input and the filter are given", f"{kname}: {val[:200]}"))
+                break
     # MessagePack
     mvals = []
     for _ in range(n // 3):
